@@ -171,6 +171,8 @@ class Index(object):
             self.inlined_helpers = normalize_package(trees, ref)
             from .normalize import tidy_inlined_temps
             self.tidied = tidy_inlined_temps(trees) if self.inlined_helpers else 0
+            from .normalize import thread_optional_locals
+            self.threaded = thread_optional_locals(trees) if self.inlined_helpers else 0
             self.desugared = desugar(trees)
         for m in self.modules.values():
             self._scan_module(m)
